@@ -147,7 +147,7 @@ func (v *Verifier) newFrame(fn *ssa.Function, out *[]Outcome) *Frame {
 		li = findLoops(fn)
 		v.loopCache[fn] = li
 	}
-	return &Frame{v: v, fn: fn, regs: map[ssa.Value]Value{}, env: map[string]Value{}, envAddr: map[string]bool{}, calls: map[string]int{}, callRes: map[string][]Value{}, out: out, loops: li, ctr: v.contractFor(fn), vars: map[string]Value{}}
+	return &Frame{v: v, fn: fn, regs: map[ssa.Value]Value{}, env: map[string]Value{}, envAddr: map[string]bool{}, calls: map[string]int{}, callRes: map[string][]Value{}, callArgs: map[string][]Value{}, out: out, loops: li, ctr: v.contractFor(fn), vars: map[string]Value{}}
 }
 
 func (fr *Frame) bindParams(st *State, args []Value) {
@@ -175,7 +175,7 @@ func (fr *Frame) bindParams(st *State, args []Value) {
 
 var pureprefixes = []string{
 	"seata.apache.org/seata-go/pkg/util/log.", "(seata.apache.org/seata-go/pkg/util/log.",
-	"fmt.", "errors.", "github.com/pkg/errors.", "strings.", "strconv.", "time.", "(time.", "math.", "unicode", "(*strings.Builder)",
+	"fmt.", "errors.", "math/rand.", "(*math/rand.", "github.com/pkg/errors.", "strings.", "strconv.", "time.", "(time.", "math.", "unicode", "(*strings.Builder)",
 	"(*github.com/prometheus", "(github.com/prometheus", "runtime.", "runtime/debug.", "os.Getenv", "(*sync.", "sync/atomic.", "(*sync/atomic.",
 	"reflect.TypeOf", "(reflect.Type)", "(*reflect.rtype)", "bytes.",
 }
@@ -543,16 +543,27 @@ func (fr *Frame) applyContract(st *State, ctr *Contract, name string, sig *types
 	}
 	res := fr.freshResults(st, sig, short)
 	bindResults(vars, res)
-	fr.callRes[fmt.Sprintf("%s#%d", short, nth)] = res
-	if ctr.Kind != "func" || ctr.Trusted {
-		// environment choice: part of a counterexample
+	if st.callRes == nil {
+		st.callRes, st.callArgs, st.callN = map[string][]Value{}, map[string][]Value{}, map[string]int{}
+	}
+	st.callN[short]++
+	pk := fmt.Sprintf("%s#%d", short, st.callN[short])
+	st.callRes[pk] = res
+	st.callArgs[pk] = args
+	{
+		// results chosen by the callee/environment: part of a counterexample ("env:" = assumed
+		// contract, "call:" = contract of a function that is itself verified)
 		nm := short
 		if i := strings.LastIndex(nm, "."); i >= 0 {
 			nm = nm[i+1:]
 		}
+		pfx := "call:"
+		if ctr.Kind != "func" || ctr.Trusted {
+			pfx = "env:"
+		}
 		rv := map[string]Value{}
 		for i, r := range res {
-			rv[fmt.Sprintf("env:%s#%d.r%d", nm, nth, i)] = r
+			rv[fmt.Sprintf("%s%s#%d.r%d", pfx, nm, nth, i)] = r
 		}
 		st.extRes = append(st.extRes, st.flattenVars(rv)...)
 	}
